@@ -3,18 +3,21 @@
 # Uses a scratch worktree of /repo (outside /repo and /verif), never touches /repo itself; evidence files are restored afterwards.
 # Writes seeded/RESULTS.json: {name: {"applies": bool, "check": id, "rc": int, "violations": int, "no_failing_input": bool}}
 set -u
-cd /verif
-WT=/tmp/seeded_wt
+cd "$(dirname "$0")/.."
+V=$(pwd)
+export V
+WT=${SEEDED_WT:-/tmp/seeded_wt}
 [ -d $WT ] || git -C /repo worktree add -q --detach $WT HEAD || exit 2
 (cd $WT && git checkout -q --detach $(git -C /repo rev-parse HEAD) && git checkout -q -- . && cp /repo/Cargo.lock .)
 mkdir -p work/ev_backup work/logs; cp evidence/*.json work/ev_backup/
 python3 - "$@" <<'PY'
 import json, os, subprocess, sys, glob
 pref = sys.argv[1] if len(sys.argv) > 1 else ""
-WT = "/tmp/seeded_wt"
-res_path = "/verif/seeded/RESULTS.json"
+WT = os.environ.get("SEEDED_WT", "/tmp/seeded_wt")
+V = os.environ["V"]
+res_path = V + "/seeded/RESULTS.json"
 res = json.load(open(res_path)) if os.path.exists(res_path) else {}
-for d in sorted(glob.glob("/verif/seeded/*/")):
+for d in sorted(glob.glob(V + "/seeded/*/")):
     name = os.path.basename(d.rstrip("/"))
     if not name.startswith(pref) or not os.path.exists(d + "patch.diff"): continue
     prop = name.split("_")[0]
@@ -23,8 +26,8 @@ for d in sorted(glob.glob("/verif/seeded/*/")):
     entry = {"applies": ok, "check": prop, "repo_head": subprocess.run(["git", "-C", "/repo", "rev-parse", "--short", "HEAD"], capture_output=True, text=True).stdout.strip()}
     if ok:
         env = dict(os.environ, VERIF_REPO_DIR=WT)
-        log = f"/verif/work/logs/seeded_{name}.log"
-        p = subprocess.run(["./check", prop, "--tier", "quick"], cwd="/verif", env=env, stdout=open(log, "w"), stderr=subprocess.STDOUT)
+        log = f"{V}/work/logs/seeded_{name}.log"
+        p = subprocess.run(["./check", prop, "--tier", "quick"], cwd=V, env=env, stdout=open(log, "w"), stderr=subprocess.STDOUT)
         lines = [l for l in open(log) if l.startswith("VIOLATION")]
         entry.update(rc=p.returncode, violations=len(lines), no_failing_input=any("no-failing-input-found" in l for l in lines))
     res[name] = entry
